@@ -1,5 +1,6 @@
 import SqlgrepModel.CodecStmt
 import SqlgrepModel.Model.Pipeline
+import SqlgrepModel.Model.PipelineFollow
 import SqlgrepModel.Spec.Pipeline
 import SqlgrepModel.Drivers.Lex
 import SqlgrepModel.Drivers.ParseStmt
@@ -126,6 +127,58 @@ def handle (args : List Sexp) : String :=
     | _, _, _, none, _, _ => "bad-single"
     | _, _, _, _, none, _ => "bad-files"
     | _, _, _, _, _, none => "bad-facts"
+  | _ => "bad-case"
+
+/-! ### follow mode (kind `e2ef`)
+
+  e2ef xDEFS xQUERY FMT HEAD xINITIAL (acts (I xCHUNK)…) CLS NUMS (rx …) (lines …) (f64 …) (oracles …) (reals …)
+       (lossy (xLINE xTEXT)…)
+
+  HEAD = 0|1 (`--head`); `xINITIAL` the file at start-up; one `(I xCHUNK)` per call of the retry hook of
+  `FollowFileIterator`: `I` = 1 clears the `running` flag there, then `xCHUNK` is appended; after the last one the hook
+  ends the iteration. `lossy`: `String::from_utf8_lossy` of the complete lines that are not valid UTF-8.
+answer: `rejected …` | `not-create-table` | `not-a-query` | `ok out=ITEM,…` | `err:KIND out=ITEM,…` | `panic` | `skip WHAT`
+  with ITEM = `C` (the screen is cleared) or `xLINE` (one printed line); `JoinNotSupported` is `err:JoinNotSupported out=`. -/
+
+def lossyEntry? : Sexp → Option (List Nat × List Nat)
+  | .list [a, b] => do pure (← a.bytes?, ← b.bytes?)
+  | _ => none
+
+def actEntry? : Sexp → Option (Bool × List Nat)
+  | .list [i, c] => do pure ((← i.nat?) != 0, ← c.bytes?)
+  | _ => none
+
+/-- the terminal is a byte stream: a printed line whose text contains a line feed (a TEXT value from a JSON escape)
+cannot be told from two printed lines, so the answer is cut at every line feed, as the harness cuts the captured stdout -/
+def cutAtNl (cur : List Nat) : List Nat → List (List Nat)
+  | [] => [cur.reverse]
+  | b :: bs => if b = 10 then cur.reverse :: cutAtNl [] bs else cutAtNl (b :: cur) bs
+
+def showItems (ws : List TermItem) : String :=
+  ",".intercalate (ws.flatMap (fun w => match w with
+    | .clear => ["C"]
+    | .line bs => (cutAtNl [] bs).map Sexp.showBytes))
+
+def showFollowAnswer : FollowAnswer → String
+  | .rejected .definitions p => "rejected defs " ++ showParsed p
+  | .rejected .query p => "rejected query " ++ showParsed p
+  | .notCreateTable => "not-create-table"
+  | .notAQuery => "not-a-query"
+  | .ran none ws => "ok out=" ++ showItems ws
+  | .ran (some k) ws => "err:" ++ k.name ++ " out=" ++ showItems ws
+  | .joinNotSupported => "err:JoinNotSupported out="
+  | .panic _ => "panic"
+  | .skip w => "skip " ++ w
+
+def handleFollow (args : List Sexp) : String :=
+  match args with
+  | [defs, query, fmt, head, initial, .list (.atom "acts" :: acts), cls, nums, rx, lines, f64, oracles, reals, lossy] =>
+    match textOf defs, textOf query, Drivers.Print.format? fmt, head.nat?, initial.bytes?, acts.mapM actEntry?,
+          factsOf cls nums rx lines f64 oracles reals (.list [.atom "fs"]),
+          (Drivers.Extract.section? "lossy" lossy).bind (fun l => l.mapM lossyEntry?) with
+    | some defs, some query, some fmt, some head, some initial, some acts, some F, some lossy =>
+      showFollowAnswer (followDriven { F with lossy := lossy } defs query fmt (head != 0) initial acts)
+    | _, _, _, _, _, _, _, _ => "bad-case"
   | _ => "bad-case"
 
 end Sqlgrep.Drivers.Pipeline
